@@ -1,3 +1,4 @@
+import Firebolt.TransExpected
 import Firebolt.Properties.TransBase
 import Firebolt.Model.Supervisor
 import Firebolt.Generated.Skeleton
@@ -158,6 +159,15 @@ theorem translated_superviseBody (σ : Env) :
     (run Trans.exSuperviseBody σ).env "initialRun" = 0 := by
   by_cases h1 : σ "initialRun" = 0 <;> by_cases h2 : σ "e.source.Start#0" = 0 <;>
   minigo_simp [Trans.exSuperviseBody, h1, h2]
+
+/-- the same two in the exact form the driver's counterexample search uses (`fbdriver transcheck`) -/
+theorem translated_prepareSource_exact (σ : Env) : obs Trans.exPrepareSource σ = TransExpected.exPrepareSource σ := by
+  by_cases h : σ "e.source.Setup#0" = 0 <;> minigo_simp [Trans.exPrepareSource, TransExpected.exPrepareSource, h]
+
+theorem translated_superviseBody_exact (σ : Env) : obs Trans.exSuperviseBody σ = TransExpected.exSuperviseBody σ := by
+  by_cases h1 : σ "initialRun" = 0 <;> by_cases h2 : σ "e.source.Start#0" = 0 <;>
+  minigo_simp [Trans.exSuperviseBody, TransExpected.exSuperviseBody, h1, h2]
+
 end Translated
 
 theorem closure_unchanged : GeneratedClo.C18 = ExpectedClo.C18 := by rfl
